@@ -31,3 +31,19 @@ Theorem C06_only_final_state_matters : forall S d ops rs w,
   (is_Some (snd (transact S d ops)) <-> exists w', process_refs S w = Ok w' /\ db_unique S w' = true).
 Proof. exact accepted_iff_final_state_ok. Qed.
 Print Assumptions C06_only_final_state_matters.
+
+(** which declared index may stand for which other: uniqueness on some
+    columns carries over to every index that contains them, never the other
+    way round - an implementation must not leave out an index because its
+    columns lie within another one *)
+From LOV Require Import Db.IndexCover.
+
+Theorem C06_unique_on_fewer_columns_suffices : forall small large tb,
+  (forall c, c ∈ small -> c ∈ large) -> rows_unique small tb -> rows_unique large tb.
+Proof. exact unique_on_fewer_columns_suffices. Qed.
+Print Assumptions C06_unique_on_fewer_columns_suffices.
+
+Theorem C06_unique_on_more_columns_does_not_suffice_refuted :
+  exists (tb : gmap sym (gmap sym value)), rows_unique [1%N; 2%N] tb /\ ~ rows_unique [1%N] tb.
+Proof. exact unique_on_more_columns_does_not_suffice_refuted. Qed.
+Print Assumptions C06_unique_on_more_columns_does_not_suffice_refuted.
